@@ -34,6 +34,10 @@ def uid(rng):
     return 'id' + ''.join(rng.choice('abcdefghijkmnpqrstuvwxyz0123456789') for _ in range(8))
 
 
+# line ends between the complete commands of one call: LF mostly, and the others str.splitlines() documents
+LINE_ENDS = ['\n', '\n', '\r\n', '\r', '\r', '\x0c', u'\u2028']
+
+
 def gen_bash(rng):
     r = rng.random()
     u = uid(rng)
@@ -61,7 +65,9 @@ def gen_bash(rng):
     if r < 0.42:
         # several complete commands on separate lines: each prints when its own line is entered
         v, w = uid(rng), uid(rng)
-        return ('echo %s\necho %s\nprintf %%s %s' % (u, v, w), '%s\r\n%s\r\n%s' % (u, v, w), 'multiline')
+        # (every line end str.splitlines() knows separates two commands - added after seeded round ten)
+        nl = rng.choice(LINE_ENDS)
+        return (nl.join(['echo %s' % u, 'echo %s' % v, 'printf %%s %s' % w]), '%s\r\n%s\r\n%s' % (u, v, w), 'multiline')
     if r < 0.48:
         n = rng.choice([3, 50, 2000]) if rng.random() < 0.8 else rng.choice([15000, 45000])
         return ('seq 1 %d' % n, ''.join('%d\r\n' % i for i in range(1, n + 1)), 'large' if n >= 15000 else 'plain')
@@ -111,7 +117,8 @@ def gen_py(rng):
         return (rng.choice([' ', '\n', '   \n', '\n\n']), '', 'empty')
     if r < 0.34:
         v = uid(rng)
-        return ("print('%s')\nprint('%s')\n1+1" % (u, v), '%s\r\n%s\r\n2\r\n' % (u, v), 'multiline')
+        nl = rng.choice(LINE_ENDS)
+        return (nl.join(["print('%s')" % u, "print('%s')" % v, '1+1']), '%s\r\n%s\r\n2\r\n' % (u, v), 'multiline')
     if r < 0.4:
         a, b = rng.randint(0, 10 ** 6), rng.randint(0, 10 ** 6)
         return ('%d+%d' % (a, b), '%d\r\n' % (a + b), 'plain')
